@@ -4,10 +4,14 @@ F = "dlt_args"
 TB = "rustc front end, kani-compiler MIR->goto translation, CBMC 6.11 + cadical; "
 NAMES = ["bool", "u8", "u16", "u32", "u64", "i8", "i16", "i32", "i64", "f32", "f64", "str", "ascii", "raw"]
 QUICK_SER = {"bool", "u16", "i64", "f32", "str", "ascii", "raw"}
-SER = [inst(F, "c18_v1_ser_%s" % n, Q, "1 value of kind %s, value/bytes symbolic" % n, "V1 Serializer -> iterator agreement", covers=1, timeout=1800)
+SER = [inst(F, "c18_v1_ser_%s" % n, Q, "1 value of kind %s, value/bytes symbolic" % n, "V1 Serializer -> iterator agreement", covers=2, timeout=1800)
        for n in NAMES]
 SER += [inst(F, "c18_v1_ser_%s_%s" % (NAMES[a], NAMES[b]), Q, "2 values of kinds %s, %s" % (NAMES[a], NAMES[b]),
-             "V1 Serializer -> iterator agreement (chained)", covers=1, timeout=2400, mem_gb=24, cost=100) for a, b in ((11, 3), (13, 0), (2, 11), (12, 8), (10, 13))]
+             "V1 Serializer -> iterator agreement (chained)", covers=2, timeout=2400, mem_gb=24, cost=100) for a, b in ((11, 3), (13, 0), (2, 11), (12, 8), (10, 13))]
+
+SER += [inst(F, "c18_v1_ser_str_l2", Q, "1 &str of exactly 2 bytes (2 ASCII or one 2-byte code point)", "V1 Serializer -> iterator agreement", covers=2, timeout=1800),
+        inst(F, "c18_v1_ser_str_l3", Q, "1 &str of exactly 3 bytes (any well-formed UTF-8)", "V1 Serializer -> iterator agreement", covers=2, timeout=1800),
+        inst(F, "c18_v1_ser_str_l3_u8", Q, "&str of exactly 3 bytes, u8", "V1 Serializer -> iterator agreement (chained)", covers=2, timeout=2400, mem_gb=24)]
 
 TXT = [inst("dlt_text", "c18_v3_text_" + n, tiers, d, "V3 canonical text + separator rule", covers=1, timeout=3400, mem_gb=24) for n, tiers, d in (
     ("bool", T, "1 bool"), ("u8", T, "1 u8, all values"), ("i8", T, "1 i8, all values"), ("u8_bool", T, "u8, bool"),
@@ -22,7 +26,7 @@ PROP = {
              "NOT covered: the TEXT rendering (V3 of the design). A harness for the cheap part (bool / 8-bit / empty arguments, separator rule; harness/dlt_text.rs, kept unregistered) finishes in 30 s on a "
              "variant of process_msg_arg_iter without `.enumerate()` but not within 57 min / 24 GB on the pinned code: CBMC loses the constant type info behind Enumerate and explores every rendering branch (u128 itoa, core::fmt). "
              "So 'canonical text' is outside this check.",
-        note=TB + "string bytes restricted to ASCII for the serde &str path (valid UTF-8 required by the type).",
+        note=TB + "string bytes of the serde &str path: every well-formed UTF-8 string of at most 3 bytes (assumed constructively; std's validator is not in the query).",
         technique="bounded model checking of the real code (Kani/CBMC): encoder -> decoder agreement with symbolic argument kinds and bytes"),
     "inject": [("src/dlt/mod.rs", "dlt_args.rs")],
     "kf_roles": ["c18_empty_strg_rawd_no_length"],
